@@ -348,6 +348,12 @@ def C08(g, tier):
         yield sx(["icf_iter", cf]), nt
         yield sx(["icf_len", cf]), False
     import copy
+    for _ in range(N(tier, 100, 1000)):
+        c = g.icf()
+        n = len(c[0][0])
+        ks = [g.r.choice([0, 0, 1, 2, n, n + 1, max(n - 1, 0), 5]) for _ in range(g.r.randint(1, 5))]
+        yield sx(["icf_iter_script", g.r.choice(BACKENDS), c, ks]), n >= 2
+        yield sx(["ics_iter_script", g.r.choice(BACKENDS), [c[0], c[1][0]], ks]), n >= 2
     for _ in range(N(tier, 60, 600)):
         c = g.icf()
         d = copy.deepcopy(c)
